@@ -1075,7 +1075,7 @@ class Engine:
             from .rx_rules import MATCH
             _, pid_, subj_, starts_ = itv.obj
             itv = starts_
-            elem_map = lambda pos: V(MATCH, MATCH._dt.mk(z3.IntVal(pid_), subj_.term, pos))     # noqa: E731
+            elem_map = lambda pos: V(MATCH, MATCH._dt.mk_Match(z3.IntVal(pid_), subj_.term, pos))     # noqa: E731
         if isinstance(s.target, ast.Name) and isinstance(s.iter, ast.Name):
             k_, spec_ = self.loop_spec(s, var)
             if spec_.get('iter_text'):
